@@ -621,6 +621,11 @@ func sortedMapKeys(m reflect.Value) []reflect.Value {
 		ni, iok := numeric(keys[i])
 		nj, jok := numeric(keys[j])
 		if iok && jok {
+			if less, decided := integerKeyLess(keys[i], keys[j]); decided {
+				// (integers are compared as integers: beyond 2^53 neighbouring keys are
+				// one and the same float64)
+				return less
+			}
 			if ni != ni || nj != nj {
 				// NaN is neither less than nor equal to anything: it goes after the numbers,
 				// or the order of the other keys would depend on where it happened to stand
@@ -645,6 +650,52 @@ func sortedMapKeys(m reflect.Value) []reflect.Value {
 		return ti < tj
 	})
 	return keys
+}
+
+// integerKeyLess orders two map keys that are both of an integer kind and differ in
+// value; decided is false for every other pair
+func integerKeyLess(a, b reflect.Value) (less, decided bool) {
+	if a.Kind() == reflect.Interface && !a.IsNil() {
+		a = a.Elem()
+	}
+	if b.Kind() == reflect.Interface && !b.IsNil() {
+		b = b.Elem()
+	}
+	signed := func(v reflect.Value) (int64, bool) {
+		switch v.Kind() {
+		case reflect.Int, reflect.Int8, reflect.Int16, reflect.Int32, reflect.Int64:
+			return v.Int(), true
+		}
+		return 0, false
+	}
+	unsigned := func(v reflect.Value) (uint64, bool) {
+		switch v.Kind() {
+		case reflect.Uint, reflect.Uint8, reflect.Uint16, reflect.Uint32, reflect.Uint64, reflect.Uintptr:
+			return v.Uint(), true
+		}
+		return 0, false
+	}
+	ai, aSigned := signed(a)
+	bi, bSigned := signed(b)
+	au, aUnsigned := unsigned(a)
+	bu, bUnsigned := unsigned(b)
+	switch {
+	case aSigned && bSigned:
+		return ai < bi, ai != bi
+	case aUnsigned && bUnsigned:
+		return au < bu, au != bu
+	case aSigned && bUnsigned:
+		if ai < 0 {
+			return true, true
+		}
+		return uint64(ai) < bu, uint64(ai) != bu
+	case aUnsigned && bSigned:
+		if bi < 0 {
+			return false, true
+		}
+		return au < uint64(bi), au != uint64(bi)
+	}
+	return false, false
 }
 
 // keyTypeName names the dynamic type of a map key; it orders keys of different types
